@@ -1,6 +1,8 @@
 package main
 
 import (
+	"fmt"
+	"os"
 	"strings"
 
 	"golang.org/x/tools/go/ssa"
@@ -37,5 +39,121 @@ func checkSendSites(c *Ctx, r *Report) {
 			}
 			r.Check(inClosure[in], c.FnName(fn)+"|Transport.Send", in.Pos(), "inside a retried operation", "a datagram is transmitted outside every operation handed to backoff.Retry: it is not numbered, checked, classified or counted the way the library's transmissions are")
 		})
+	}
+}
+
+// isExchangeCall: the call talks to the BMC — a module function that reaches Transport.Send,
+// or a context-taking, error-returning method of one of the module's interfaces (Session,
+// Connection, SessionCommands, …), whose implementations do.
+func (c *Ctx) isExchangeCall(in ssa.Instruction) bool {
+	cc := asCall(in)
+	if cc == nil {
+		return false
+	}
+	if isCallTo(in, fnTransportSend) {
+		return true
+	}
+	// backoff.Retry runs the operation at least once; the operations handed to it are the
+	// library's sending operations (send-sites)
+	if isCallTo(in, fnBackoffRetry) || isCallTo(in, "github.com/cenkalti/backoff/v4.RetryNotify") {
+		return true
+	}
+	if sf := cc.StaticCallee(); sf != nil {
+		return c.InModule(sf) && sf.Blocks != nil && c.reachesSend(sf)
+	}
+	if cc.IsInvoke() {
+		pk := cc.Method.Pkg()
+		if pk == nil || !(pk.Path() == modPath || strings.HasPrefix(pk.Path(), modPath+"/")) {
+			return false
+		}
+		sig := cc.Signature()
+		hasCtx, hasErr := false, false
+		for i := 0; i < sig.Params().Len(); i++ {
+			if isContextType(sig.Params().At(i).Type()) {
+				hasCtx = true
+			}
+		}
+		for i := 0; i < sig.Results().Len(); i++ {
+			if isErrorType(sig.Results().At(i).Type()) {
+				hasErr = true
+			}
+		}
+		return hasCtx && hasErr
+	}
+	return false
+}
+
+// checkSuccessNeedsExchange: "no call reports success without having received a valid
+// response", as a must-pass-through: a context-taking library function whose job involves
+// talking to the BMC returns a nil error only on paths that made at least one exchange.
+// The exceptions are listed with their reason; anything else — a cached answer, a "the BMC is
+// probably gone anyway" shortcut — is a success nobody confirmed.
+func checkSuccessNeedsExchange(c *Ctx, r *Report) {
+	r.Rule("success-needs-exchange", "every context-taking library function that talks to the BMC returns success only on paths on which it made at least one exchange (listed exceptions: selecting a single acceptable cipher suite needs no discovery)", 10)
+	for _, fn := range c.ctxFuncs() {
+		has, outsideLoop := false, false
+		loops := viewLoops(fn)
+		fl := flatOf(fn)
+		// (a call whose body is spliced into the view is not itself an exchange: its body is there)
+		isExch := func(in ssa.Instruction) bool {
+			if call, ok := in.(*ssa.Call); ok && fl.Spliced(call) {
+				return false
+			}
+			return c.isExchangeCall(in)
+		}
+		viewInstrs(fn, func(in ssa.Instruction) {
+			if isExch(in) {
+				has = true
+				if innermostLoop(loops, in.Block()) == nil {
+					outsideLoop = true
+				}
+			}
+		})
+		if !has {
+			continue
+		}
+		name := c.FnName(fn)
+		// every exchange sits in a loop: the path through zero turns of it is excluded by what the
+		// loop runs over (a non-empty table, a counter that starts below its bound), which is for
+		// the rules about those loops to decide (C14, C16), not for a path count
+		if !outsideLoop {
+			r.OK(name+"|exchanges in loops", fn.Pos(), "all exchanges are made by paging/walking loops (decided by the rules about those loops)")
+			continue
+		}
+		// the selector: with exactly one acceptable suite there is nothing to discover (C12 decides
+		// that this is the only such path)
+		if cs := c.Named("pkg/ipmi", "CipherSuite"); cs != nil && fn.Signature.Results().Len() == 2 && isPtrTo(fn.Signature.Results().At(0).Type(), cs) {
+			r.OK(name+"|exception", fn.Pos(), "cipher suite selector: a single acceptable suite is proposed without discovery")
+			continue
+		}
+		ok, n := true, 0
+		pos := fn.Pos()
+		complete := enumPaths(fn, 2, 2000000, func(p CPath) {
+			ret, isRet := p.Last().(*ssa.Return)
+			if !isRet || ret.Parent() != fn || c.errOutcome(fn, p) == 1 {
+				return
+			}
+			n++
+			if os.Getenv("BMCVERIF_DBG") != "" {
+				fmt.Fprintln(os.Stderr, "DBG", name, "outcome", c.errOutcome(fn, p), "instrs", len(p.Instrs()))
+				for _, in := range p.Instrs() {
+					if cc := asCall(in); cc != nil {
+						fmt.Fprintln(os.Stderr, "   call", calleeName(cc), c.isExchangeCall(in))
+					}
+				}
+			}
+			for _, in := range p.Instrs() {
+				if isExch(in) {
+					return
+				}
+			}
+			ok = false
+			pos = ret.Pos()
+		})
+		if !complete {
+			r.Unk(name+"|success needs exchange", fn.Pos(), "too many paths")
+			continue
+		}
+		r.Check(ok, name+"|success needs exchange", pos, fmt.Sprintf("%d success paths, each with an exchange", n), "a path returns success without any exchange with the BMC: nothing was sent, no response was received, and the caller is told the operation succeeded")
 	}
 }
